@@ -30,6 +30,18 @@ func newStringPrefixFilter(code *syntax.Code) StringPrefixFilter {
 	opts := code.FindOptimizations
 	minRequiredLength := opts.MinRequiredLength
 
+	// The filters below compare bytes. An invalid byte of the input decodes to
+	// U+FFFD, which a literal U+FFFD of the pattern matches rune-wise but not
+	// byte-wise, so literals holding U+FFFD are left to the rune-level search.
+	for _, lit := range append([]string{opts.LeadingPrefix, opts.FixedDistanceLiteral.S}, opts.LeadingPrefixes...) {
+		if strings.ContainsRune(lit, utf8.RuneError) {
+			return nil
+		}
+	}
+	if opts.LiteralAfterLoop != nil && strings.ContainsRune(opts.LiteralAfterLoop.String, utf8.RuneError) {
+		return nil
+	}
+
 	switch opts.FindMode {
 	case syntax.LeadingString_LeftToRight:
 		return stringIndexPrefixFilter(opts.LeadingPrefix, false, minRequiredLength)
